@@ -47,13 +47,17 @@ func newSleepTransaction(client *Client, sleepDuration time.Duration) *sleepTran
 			tLog.Debug("Deleted.")
 		})
 
-	client.group.Go(func() error {
+	// The goroutine must not be started with client.group.Go(): the group
+	// may have finished already (the client was terminated) and other API
+	// calls may be returning from client.group.Wait() right now; adding to
+	// the group's WaitGroup at that moment panics ("WaitGroup is reused
+	// before previous Wait has returned").
+	go func() {
 		select {
 		case <-client.groupCtx.Done():
 		case <-t.Done():
 		}
-		return nil
-	})
+	}()
 	return t
 }
 
